@@ -111,12 +111,18 @@ def confirm(name, suite):
             sh(["bash", "-c", "go test -json -vet=off -count=1 -timeout 8m ./... > %s 2>&1" % js], wt)
             rc, out = sh(["python3", os.path.join(VERIF, "lib", "baseline_cmp.py"), js], wt)
             if rc != 0:
-                # TestPathological is timing based: re-run what did not pass once, alone
+                # three packages are flaky under load on the unmodified tree as well (a timing test in parser; a
+                # WaitGroup-reuse panic in the synctestx.Hammer helper used by internal/intern and internal/ext/syncx):
+                # when nothing else is missing, they are re-run alone, up to three times, and the logs are merged
                 miss = re.findall(r"NOT PASS: (\S+)::(\S+)", out)
-                if miss and all(t.startswith("TestPathological") for _, t in miss):
-                    rc2, out2 = sh(["go", "test", "-vet=off", "-count=1", "-run", "TestPathological", "./parser/"], wt)
-                    if rc2 == 0:
-                        rc, out = 0, out + "\n(TestPathological passed when re-run alone)"
+                flaky = ("/parser", "/internal/intern", "/internal/ext/syncx")
+                if miss and all(pk.endswith(flaky) for pk, _ in miss):
+                    for _ in range(3):
+                        sh(["bash", "-c", "go test -json -vet=off -count=1 ./parser/ ./internal/intern/ ./internal/ext/syncx/ >> %s 2>&1" % js], wt)
+                        rc, out2 = sh(["python3", os.path.join(VERIF, "lib", "baseline_cmp.py"), js], wt)
+                        if rc == 0:
+                            out = out2 + "\n(load-flaky packages passed when re-run alone)"
+                            break
             res["suite_ok"] = rc == 0
             res["suite_summary"] = out[-1500:]
     finally:
